@@ -1,3 +1,4 @@
+import DaskModel.Model.SDL
 /-
 K10 (part): division rules of the expression classes behind C41.
 
@@ -9,7 +10,7 @@ Python                                             Lean
 `LocSlice._layer` on the partitions                `locSliceParts`
 `Partitions._divisions` / `_task`                  `partitionsDivs`, `partitionsParts`
 `RepartitionToFewer._divisions`                    `toFewerDivs`
-Import-free.
+No Mathlib (imports Model/SDL for `bisectLeft`).
 -/
 namespace Dask.Divs
 
@@ -116,6 +117,12 @@ def partitionsDivs (divs : List Nat) (sel : List Nat) : Option (List Nat) := do
 
 def partitionsParts {α : Type} (parts : List (List α)) (sel : List Nat) : Option (List (List α)) :=
   sel.mapM fun p => parts[p]?
+
+/-- `FromPandasDivisions._divisions_and_locations` (`dd.repartition(pandas_frame, divisions)`) on the sorted index
+    `keys`: the first position at or after each division value (`searchsorted(side="left")`; `get_indexer(bfill)` with
+    `-1` read as "the end", after the fix 4f4a63b), the last location replaced by `len` -/
+def pandasDivLocs (keys : List Nat) (b : List Nat) : List Nat :=
+  (b.dropLast.map (Dask.SDL.bisectLeft keys)) ++ [keys.length]
 
 /-- `Concat._divisions` for frames whose division ranges follow one another (`_monotonic_divisions`):
     drop the last division of every frame but the last -/
